@@ -110,6 +110,9 @@ type tcpEnd struct {
 	connecting bool
 	connected  bool
 	connErr    syscall.Errno // SO_ERROR after a failed connect
+	failed     bool          // the connect failed: the socket is in CLOSE state with both directions shut down
+	connInProg bool          // connect returned EINPROGRESS and no later connect call has collected the outcome yet
+	rcvShut    bool          // shutdown(SHUT_RD)
 
 	lip, rip     [4]byte
 	lport, rport int
@@ -159,21 +162,30 @@ func (e *tcpEnd) mask() uint32 {
 	if e.connecting {
 		return 0
 	}
-	if e.connErr != 0 && !e.connected {
-		return syscall.EPOLLIN | syscall.EPOLLOUT | syscall.EPOLLHUP
+	if e.failed {
+		// tcp_done: both directions shut down; the error stays reported until something collects it
+		m := uint32(syscall.EPOLLIN | syscall.EPOLLOUT | syscall.EPOLLHUP | syscall.EPOLLRDHUP)
+		if e.connErr != 0 {
+			m |= syscall.EPOLLERR
+		}
+		return m
 	}
 	if e.dead {
-		m := uint32(syscall.EPOLLIN | syscall.EPOLLOUT | syscall.EPOLLHUP)
+		m := uint32(syscall.EPOLLIN | syscall.EPOLLOUT | syscall.EPOLLHUP | syscall.EPOLLRDHUP)
 		if e.errPending != 0 {
 			m |= syscall.EPOLLERR
 		}
 		return m
 	}
 	var m uint32
-	if len(e.rcv) > 0 || e.finRcvd {
+	if len(e.rcv) > 0 {
 		m |= syscall.EPOLLIN
 	}
-	if len(e.snd) < e.sndCap && !e.finQueued {
+	if e.finRcvd || e.rcvShut {
+		m |= syscall.EPOLLIN | syscall.EPOLLRDHUP
+	}
+	// tcp_poll: a socket whose sending direction is shut down always polls writable
+	if len(e.snd) < e.sndCap || e.finQueued {
 		m |= syscall.EPOLLOUT
 	}
 	if e.finRcvd && e.finQueued {
@@ -184,13 +196,21 @@ func (e *tcpEnd) mask() uint32 {
 
 func (e *tcpEnd) read(p []byte) (int, syscall.Errno) {
 	w := e.k.w
-	if e.connecting || (!e.connected && e.connErr == 0) {
+	if e.connecting || (!e.connected && !e.failed) {
 		return -1, syscall.ENOTCONN
 	}
-	if !e.connected && e.connErr != 0 {
-		er := e.connErr
-		e.connErr = 0
-		return -1, er
+	if e.failed {
+		if e.connErr != 0 {
+			er := e.connErr
+			e.connErr = 0
+			return -1, er
+		}
+		return 0, 0
+	}
+	if len(p) == 0 {
+		// tcp_recvmsg with a zero length: zero bytes were asked for and zero are "copied" - the loop
+		// ends before it looks at FIN, errors or would-block
+		return 0, 0
 	}
 	if len(e.rcv) > 0 {
 		n := len(p)
@@ -210,13 +230,15 @@ func (e *tcpEnd) read(p []byte) (int, syscall.Errno) {
 		return n, 0
 	}
 	if e.dead {
-		if e.errPending == syscall.ECONNRESET {
+		// tcp_recvmsg: SOCK_DONE (a FIN was received) is tested before sk_err
+		if !e.finRcvd && e.errPending != 0 {
+			er := e.errPending
 			e.errPending = 0
-			return -1, syscall.ECONNRESET
+			return -1, er
 		}
 		return 0, 0
 	}
-	if e.finRcvd {
+	if e.finRcvd || e.rcvShut {
 		return 0, 0
 	}
 	return -1, syscall.EAGAIN
@@ -224,14 +246,27 @@ func (e *tcpEnd) read(p []byte) (int, syscall.Errno) {
 
 func (e *tcpEnd) write(p []byte) (int, syscall.Errno) {
 	w := e.k.w
-	if e.connecting || (!e.connected && e.connErr == 0) {
+	if e.connecting || (!e.connected && !e.failed) {
 		return -1, syscall.ENOTCONN
 	}
-	if !e.connected {
+	if e.failed {
+		// sk_stream_error: a pending socket error takes the place of EPIPE
+		if e.connErr != 0 {
+			er := e.connErr
+			e.connErr = 0
+			return -1, er
+		}
 		return -1, syscall.EPIPE
 	}
-	if e.dead || e.finQueued {
-		e.errPending = 0
+	if e.dead {
+		if e.errPending != 0 {
+			er := e.errPending
+			e.errPending = 0
+			return -1, er
+		}
+		return -1, syscall.EPIPE
+	}
+	if e.finQueued {
 		return -1, syscall.EPIPE
 	}
 	free := e.sndCap - len(e.snd)
@@ -345,7 +380,7 @@ func (e *tcpEnd) rstArrive() {
 	} else {
 		e.errPending = syscall.ECONNRESET
 	}
-	e.rcv = nil
+	// the receive queue survives a reset: what was delivered before it is still read first
 	w.Stat(statTCPRst)
 	w.Tracef("tcp %s RST arrives", e.Name)
 	if e.OnData != nil {
@@ -565,8 +600,12 @@ func (k *Kernel) Bind(fd int, ip [4]byte, port int) syscall.Errno {
 	if f == nil {
 		return syscall.EBADF
 	}
-	if f.kind != fkSockNew && f.kind != fkUDP {
+	switch f.kind {
+	case fkSockNew, fkUDP:
+	case fkListener, fkTCP:
 		return syscall.EINVAL
+	default:
+		return syscall.ENOTSOCK
 	}
 	if f.so.bound {
 		return syscall.EINVAL
@@ -623,8 +662,14 @@ func (k *Kernel) Listen(fd, backlog int) syscall.Errno {
 	if f.kind == fkListener {
 		return 0
 	}
-	if f.kind != fkSockNew {
+	switch f.kind {
+	case fkSockNew:
+	case fkTCP:
+		return syscall.EINVAL
+	case fkUDP:
 		return syscall.EOPNOTSUPP
+	default:
+		return syscall.ENOTSOCK
 	}
 	if !f.so.bound {
 		k.nextPort++
@@ -654,8 +699,14 @@ func (k *Kernel) Accept(fd int) (int, [4]byte, int, syscall.Errno) {
 	if f == nil {
 		return -1, zero, 0, syscall.EBADF
 	}
-	if f.kind != fkListener {
+	switch f.kind {
+	case fkListener:
+	case fkSockNew, fkTCP:
 		return -1, zero, 0, syscall.EINVAL
+	case fkUDP:
+		return -1, zero, 0, syscall.EOPNOTSUPP
+	default:
+		return -1, zero, 0, syscall.ENOTSOCK
 	}
 	for len(f.lis.queue) == 0 {
 		if f.nonblock {
@@ -706,11 +757,24 @@ func (k *Kernel) Connect(fd int, ip [4]byte, port int) syscall.Errno {
 			return syscall.EALREADY
 		}
 		if f.tcp.connected {
+			if f.tcp.connInProg {
+				// inet_stream_connect: the call that finds the handshake complete moves SS_CONNECTING to SS_CONNECTED
+				f.tcp.connInProg = false
+				return 0
+			}
 			return syscall.EISCONN
 		}
-		if f.tcp.connErr != 0 {
+		if f.tcp.failed {
+			// inet_stream_connect in SS_CONNECTING with the socket closed: report the pending error
+			// (ECONNABORTED if something else collected it) and return the socket to the unconnected
+			// state; the next connect starts a new attempt
 			er := f.tcp.connErr
-			f.tcp.connErr = 0
+			if er == 0 {
+				er = syscall.ECONNABORTED
+			}
+			f.tcp.closedLocal = true
+			f.tcp = nil
+			f.kind = fkSockNew
 			return er
 		}
 		return syscall.EINVAL
@@ -742,6 +806,7 @@ func (k *Kernel) Connect(fd int, ip [4]byte, port int) syscall.Errno {
 			}
 			c.connecting = false
 			c.connErr = errno
+			c.failed = true
 			w.Stat(st)
 			w.Tracef("connect %d failed errno=%d", fd, int(errno))
 		})
@@ -763,6 +828,7 @@ func (k *Kernel) Connect(fd int, ip [4]byte, port int) syscall.Errno {
 				if !c.closedLocal {
 					c.connecting = false
 					c.connErr = syscall.ECONNREFUSED
+					c.failed = true
 				}
 				return
 			}
@@ -792,7 +858,36 @@ func (k *Kernel) Connect(fd int, ip [4]byte, port int) syscall.Errno {
 		c.connErr = 0
 		return er
 	}
+	c.connInProg = true
 	return syscall.EINPROGRESS
+}
+
+// Shutdown: shutdown(2) on a stream socket.
+func (k *Kernel) Shutdown(fd, how int) syscall.Errno {
+	k.w.Yield("shutdown")
+	f := k.get(fd)
+	if f == nil {
+		return syscall.EBADF
+	}
+	switch f.kind {
+	case fkSockNew, fkListener, fkUDP, fkTCP:
+	default:
+		return syscall.ENOTSOCK
+	}
+	if f.kind != fkTCP || !f.tcp.connected {
+		return syscall.ENOTCONN
+	}
+	e := f.tcp
+	if how == syscall.SHUT_RD || how == syscall.SHUT_RDWR {
+		e.rcvShut = true
+	}
+	if how == syscall.SHUT_WR || how == syscall.SHUT_RDWR {
+		if !e.dead {
+			e.finQueued = true
+			e.kick()
+		}
+	}
+	return 0
 }
 
 func (k *Kernel) srcIPFor(dst [4]byte) [4]byte {
@@ -910,7 +1005,7 @@ func (k *Kernel) GetsockoptInt(fd, level, opt int) (int, syscall.Errno) {
 	if level == syscall.SOL_SOCKET && opt == syscall.SO_ERROR {
 		if f.kind == fkTCP {
 			er := f.tcp.connErr
-			if er == 0 && f.tcp.dead {
+			if er == 0 && f.tcp.dead && !f.tcp.failed {
 				er = f.tcp.errPending
 				f.tcp.errPending = 0
 			}
@@ -921,6 +1016,12 @@ func (k *Kernel) GetsockoptInt(fd, level, opt int) (int, syscall.Errno) {
 	}
 	if level == syscall.IPPROTO_IP && f.kind == fkUDP {
 		return f.udp.getIPOpt(opt)
+	}
+	if level == syscall.SOL_SOCKET && opt == syscall.SO_TYPE {
+		if f.so.dgram {
+			return syscall.SOCK_DGRAM, 0
+		}
+		return syscall.SOCK_STREAM, 0
 	}
 	v, _ := f.so.getInt(level, opt)
 	return v, 0
